@@ -493,7 +493,10 @@ pub fn run_in(scratch: &Scratch, sc: &Scenario, timeout: Duration) -> Obs {
     let before = snapshot(&work);
     let argv: Vec<String> = sc.argv.iter().map(|a| expand(a, scratch, sc)).collect();
 
-    let mut cmd = Command::new(sibling("slicec"));
+    // (a scenario may name another subject built next to the harness - `emitcs`, a minimal compiler that ends with
+    // the library's own exit point - through the pseudo environment entry MC_SUBJECT_BINARY)
+    let subject = sc.env.iter().find(|(k, _)| k == "MC_SUBJECT_BINARY").map(|(_, v)| v.clone()).unwrap_or_else(|| "slicec".to_string());
+    let mut cmd = Command::new(sibling(&subject));
     cmd.args(&argv)
         .current_dir(&work)
         .stdin(Stdio::null())
@@ -505,7 +508,9 @@ pub fn run_in(scratch: &Scratch, sc: &Scenario, timeout: Duration) -> Obs {
         .env("RUST_BACKTRACE", "0")
         .process_group(0);
     for (k, v) in &sc.env {
-        cmd.env(k, expand(v, scratch, sc));
+        if k != "MC_SUBJECT_BINARY" {
+            cmd.env(k, expand(v, scratch, sc));
+        }
     }
     let t0 = Instant::now();
     let mut child = cmd.spawn().expect("spawn slicec (is it built next to mc?)");
